@@ -279,7 +279,8 @@ def found_if_present():
 def tasks(tier):
     ts = [('contracts.c12', 'simple', (m,)) for m in SIMPLE]
     ts += [('contracts.c12', f, ()) for f in ('pop_', 'popitem', 'setdefault', 'constructs_with_policy_none', 'found_if_present')]
-    ts += [('contracts.c10', 'peekitem_task', ('C12', True)), ('contracts.c10', 'peekitem_task', ('C12', False))]
+    ts += [('contracts.c10', 'peekitem_task', ('C12', True)), ('contracts.c10', 'peekitem_task', ('C12', False)),
+           ('contracts.iteration', 'iter_task', ('C12', True)), ('contracts.iteration', 'iter_task', ('C12', False))]
     return ts
 
 
